@@ -43,6 +43,8 @@ func runCases(in childIn, log func(any)) []*caseResult {
 			out = append(out, evalConc(genConcCase(s)))
 		case "multi":
 			out = append(out, evalMulti(genMultiCase(s)))
+		case "many":
+			out = append(out, evalSeq(genManyCase(s), in.IsoMod > 0 && i%in.IsoMod == 0))
 		}
 	}
 	return out
@@ -74,15 +76,18 @@ func run(c *core.Ctx) {
 	nSeq := c.N(20000, 400000)
 	nConc := c.N(2500, 40000)
 	nMulti := c.N(400, 6000)
-	// debugging aid for mutant experiments only: VERIF_C16_ONLY=seq|conc
+	nMany := c.N(900, 15000)
+	// debugging aid for mutant experiments only: VERIF_C16_ONLY=seq|conc|multi|many
 	only := os.Getenv("VERIF_C16_ONLY")
 	switch only {
 	case "seq":
-		nConc, nMulti = 0, 0
+		nConc, nMulti, nMany = 0, 0, 0
 	case "conc":
-		nSeq, nMulti = 0, 0
+		nSeq, nMulti, nMany = 0, 0, 0
 	case "multi":
-		nSeq, nConc = 0, 0
+		nSeq, nConc, nMany = 0, 0, 0
+	case "many":
+		nSeq, nConc, nMulti = 0, 0, 0
 	}
 	chunkSeq, chunkConc := 30, 8
 	if c.Thorough() {
@@ -116,6 +121,14 @@ func run(c *core.Ctx) {
 				continue
 			}
 			j.seeds = append(j.seeds, c.SubSeed("multi", k))
+		}
+		jobs = append(jobs, j)
+	}
+	// long rule lists (own PRNG stream "many"; the other clauses' cases are unchanged)
+	for i := 0; i < nMany; i += chunkSeq {
+		j := job{clause: "many", iso: 4}
+		for k := i; k < i+chunkSeq && k < nMany; k++ {
+			j.seeds = append(j.seeds, c.SubSeed("many", k))
 		}
 		jobs = append(jobs, j)
 	}
@@ -193,6 +206,13 @@ func run(c *core.Ctx) {
 		"clock_shift_gt_window", "clock_shift_lt_window", "clock_same_bucket",
 		"isolation_replays", "multi_events_passed", "multi_events_discarded_by_first", "multi_events_discarded_by_second", "multi_events_same_rule_index_in_both",
 		"conc_exact_count_checks", "conc_dist_bucket_checks", "conc_size_reject_checks",
+		"many_events_passed", "many_events_discarded", "many_cases_rules_20-26", "many_cases_rules_27-52", "many_cases_rules_53-78", "many_cases_rules_79plus",
+		"many_ev_rule_idx_0-25_pass", "many_ev_rule_idx_0-25_rej", "many_ev_rule_idx_26-51_pass", "many_ev_rule_idx_26-51_rej",
+		"many_ev_rule_idx_52-77_pass", "many_ev_rule_idx_52-77_rej", "many_ev_rule_idx_78plus_pass", "many_ev_rule_idx_78plus_rej",
+		"many_ev_rule_default_pass", "many_ev_rule_default_rej",
+		"many_key_bucket_seen_through_several_rules", "many_key_bucket_rejections_by_several_rules", "many_key_bucket_under_several_distinct_limits",
+		"many_cases_one_key_bucket_through_10plus_rules", "many_rule_isolation_replays",
+		"many_ev_plain_pass", "many_ev_plain_rej", "many_ev_dist-listed_rej", "many_ev_dist-unlisted_rej", "many_ev_older_bucket_rej",
 	}
 	for _, n := range need {
 		cl := "seq"
@@ -200,6 +220,8 @@ func run(c *core.Ctx) {
 			cl = "conc"
 		} else if len(n) > 6 && n[:6] == "multi_" {
 			cl = "multi"
+		} else if len(n) > 5 && n[:5] == "many_" {
+			cl = "many"
 		}
 		if only != "" && only != cl {
 			continue
@@ -234,6 +256,9 @@ func merge(c *core.Ctx, cr *caseResult) {
 		}
 		if cr.Clause == "multi" {
 			k = "multi_" + k
+		}
+		if cr.Clause == "many" {
+			k = "many_" + k
 		}
 		c.Count(k, v)
 	}
